@@ -93,12 +93,13 @@ const code = 18
 var addAKA = ops.ParseJSON(`{"action":"add-also-known-as","uris":["https://windowed.example/1"]}`)
 
 func Run(r *core.Run) {
-	r.Rule = "all combinations of delta in {0,1,3,600} (thorough {0,1,2,3,7,600,86400}), from in {0,5,10} (thorough {0,1,5,10,1000}) and {-D-1,-D,-D+1}, until in {0,from-1,from,from+1,from+D-1,from+D,from+D+1}, " +
+	r.Rule = "all combinations of delta in {0,1,3,600,9223372036,9223372037,10^10} (thorough {0,1,2,3,7,600,86400,...,2^40}), from in {0,5,10} (thorough {0,1,5,10,1000}) and {-D-1,-D,-D+1}, until in {0,from-1,from,from+1,from+D-1,from+D,from+D+1}, " +
 		"t in ({from,until,from+D} +- {0,1}) u {0}; x {update,recover,deactivate} x {Ed25519,P-256} (thorough: all 5 key types) x (baseline + each other numeric protocol parameter set to 4-5 other values alone); " +
 		"distinct = distinct (type,from,until,t,delta,effective,parameter) observations; non-trivial = window set (from or until non-zero)"
 	r.Assumptions = []string{"reference window formula written from the property statement", "JWS signing by the harness's own signer (Go crypto)",
 		"the applier is driven directly with hand-built anchored operations (no operation processor)"}
-	deltas := core.Pick(r, []uint64{0, 1, 3, 600}, []uint64{0, 1, 2, 3, 7, 600, 86400})
+	// (the last three: about 292 years in seconds and beyond - "practically never expires"; a product with a nanosecond unit overflows there)
+	deltas := core.Pick(r, []uint64{0, 1, 3, 600, 9223372036, 9223372037, 10000000000}, []uint64{0, 1, 2, 3, 7, 600, 86400, 9223372036, 9223372037, 10000000000, 1 << 40})
 	froms := core.Pick(r, []int64{0, 5, 10}, []int64{0, 1, 5, 10, 1000})
 	keyTypes := core.Pick(r, []string{"Ed25519", "P-256"}, []string{"Ed25519", "P-256", "secp256k1", "P-384", "P-521"})
 	types := []operation.Type{operation.TypeUpdate, operation.TypeRecover, operation.TypeDeactivate}
